@@ -412,7 +412,10 @@ CHECKS["C13"] = {
               "real time) x channel / transport buffers 0/1/8 x wiring (bare ClientChannel or the high-level Client against a real Server): the peer reaches the matching terminal state, RcvDone and the "
               "four inbound streams of both sides are closed and every consumer returns within the bound (1 s; 5 s on TCP), the initiator's transport is disconnected when the terminating call returns, "
               "Established/Finished callbacks pair up, and after the observing side closed its channel no session goroutine (receiver, dispatch loop, serving goroutine, client listener) and no connection "
-              "end is left. Client.Close also with the server's dispatch loop stuck in a handler (finishing not answered): every connection the Client dialled must be released when Close returns."),
+              "end is left. Client.Close also with the server's dispatch loop stuck in a handler (finishing not answered): every connection the Client dialled must be released when Close returns. "
+              "TCP+TLS cases draw the protocol version (1.3 or capped at 1.2, where the peer's close notification travels as a visible alert). Plus two real-time loads over the in-process transport: "
+              "48 bare client channels finishing their sessions at the same time again and again, and a server whose last word (finished session, then close) is swept in steps of a few nanoseconds across "
+              "the instant the client's receiver asks for its next envelope, right after establishment or right after a delivered message: every client reaches the finished state."),
     "note": "Schedules are sampled; the terminating call's own return value is not judged (under TLS it can report a close_notify write error after a clean finish). Server-side transports are only visible on in-memory connections.",
     "technique": "property-based testing (rapid) over (initiator, moment, transport, buffers, wiring) with state / stream-closure / goroutine-census oracles; virtual time plus real sockets",
     "rule": "case = (transport, wiring, initiator, buffers, traffic counts, termination moment). Non-trivial: termination with traffic still to be sent, or initiated by the server side, or buffer 0. Distinct by SHA-1 of the case.",
@@ -420,6 +423,7 @@ CHECKS["C13"] = {
     "jobs": [
         {"test": "TestC13Replay", "kind": "plain"},
         {"test": "TestC13FinishStress", "kind": "plain", "shards": (3, 8), "timeout": (300, 1500), "gomaxprocs": [16, 8, 4, 16, 8, 4, 16, 2]},
+        {"test": "TestC13LastWordRace", "kind": "plain", "shards": (3, 8), "timeout": (300, 1500), "gomaxprocs": [16, 8, 4, 16, 8, 4, 16, 2]},
         {"test": "TestC13", "kind": "rapid", "shards": 10, "checks": (150, 6000), "timeout": (300, 3000), "gomaxprocs": [1, 2, 4, 16, 2]},
         {"test": "TestC13Real", "kind": "rapid", "shards": 4, "checks": (6, 150), "timeout": (400, 3000), "gomaxprocs": [4, 16], "shrink": (30, 90)},
     ],
@@ -432,14 +436,18 @@ CHECKS["C18"] = {
               "1-8 dialling goroutines, is closed at the parked state or after a drawn delay (and sometimes twice): ListenAndServe returns exactly ErrServerClosed within the bound, nothing panics "
               "(a crash of the process is attributed to the journalled case), a dial after Close returned is refused, every established client ends finished, Established fires exactly once for exactly "
               "the sessions whose client saw an established envelope, before any handler for it, Finished exactly once afterwards for the same set and after the last handler, and no server goroutine "
-              "(accept/consume/serve/receiver/dispatch/listener hand-off) is left after the release bound."),
-    "note": "Virtual time only; schedules are sampled (GOMAXPROCS varied). The in-memory listener mirrors the library listeners' Accept (select over context, close signal, queue).",
+              "(accept/consume/serve/receiver/dispatch/listener hand-off) is left after the release bound, and every connection a listener had accepted is closed on the server side. "
+              "Plus, over the library's own loopback listeners (TCP, TCP with a TLS configuration, WebSocket; ConnBuffer 0-32, Backlog 0-8) in real time: 1-24 raw peers, speaking or silent, connect at drawn "
+              "microsecond offsets (half of the cases as a burst right before the closing) while the Server is closed: every peer that got connected is served (receives bytes) or sees its connection end "
+              "within 8 s (one I/O poll for a silent peer in mid-handshake), ListenAndServe returns ErrServerClosed and no serving goroutine stays."),
+    "note": "Virtual time for the parked-stage cases, real time for the loopback-listener cases; schedules are sampled (GOMAXPROCS varied). The in-memory listener mirrors the library listeners' Accept (select over context, close signal, queue) and refuses what is left in its backlog when closed, as a kernel does.",
     "technique": "property-based testing (rapid) over (listeners, parked client stages, flood, close moment) with callback-log / return-value / goroutine-census oracles, in virtual time",
     "rule": "case = (listener kinds, client stages, flood size, delay before Close, close twice). Non-trivial: Close with a session mid-handshake or established, or with the flood running. Distinct by SHA-1 of the case.",
     "assumptions": TRANSPORT_ASSUMPTIONS,
     "jobs": [
         {"test": "TestC18Replay", "kind": "plain"},
         {"test": "TestC18", "kind": "rapid", "shards": 12, "checks": (250, 12000), "timeout": (300, 3000), "gomaxprocs": [1, 2, 4, 16, 8, 2]},
+        {"test": "TestC18RealAccept", "kind": "rapid", "shards": (4, 8), "checks": (10, 150), "timeout": (300, 3000), "gomaxprocs": [4, 16, 2, 8], "shrink": (20, 60)},
     ],
 }
 
